@@ -82,10 +82,10 @@ Section ModMarkers.
 
   (* per message: an accepted guarded modification emits - when end markers are enabled - exactly the static markers
      of its Update FARs over the FAR list stored before the message (plus the FARs the message creates) *)
-  Lemma mod_markers_static a c seid cpf cp cf cq up uf uq rp rf rq s0 w6 a' c' o :
+  Lemma mod_markers_static a c seid cpf cp cf cq up uf uq rp rf rq mid s0 w6 a' c' o :
     find_session seid (c_sessions c) = Some s0 ->
     mod_loops a c s0 seid cp cf cq up uf uq = (w6, 0%nat) ->
-    late_ok a c seid s0 w6 cp cf cq up uf uq rp rf rq = true ->
+    late_ok a c seid s0 w6 cp cf cq up uf uq rp rf rq mid = true ->
     handle_mod burst a c seid cpf cp cf cq up uf uq rp rf rq = Done (a', c', o) ->
     exists fs ups,
       parse_all (fun i => parse_far i seid (g_access (a_cfg a)) (g_core (a_cfg a)) false) cf = Some fs /\
@@ -94,7 +94,7 @@ Section ModMarkers.
       o_markers o = if g_end_marker (a_cfg a) then static_markers ups (view (s_fars s0) ++ fs) else [].
   Proof.
     intros Hf HL HG H.
-    destruct (mod_late_result burst _ _ _ cpf _ _ _ _ _ _ _ _ _ _ _ Hf HL HG) as (wp3 & g3 & dp & wf3 & df & wq3 & dq & _ & _ & _ & Hr).
+    destruct (mod_late_result burst _ _ _ cpf _ _ _ _ _ _ _ _ _ _ _ _ Hf HL HG) as (wp3 & g3 & dp & wf3 & df & wq3 & dq & _ & _ & _ & Hr).
     rewrite Hr in H. inversion H; subst a' c' o; clear H Hr. cbn [o_markers o_reply].
     destruct (loops_marks _ _ _ _ _ _ _ _ _ _ _ HL) as (fs & ups & Pf & Pu & Hm).
     exists fs, ups. split; [exact Pf|]. split; [exact Pu|]. split; [reflexivity|].
@@ -111,8 +111,9 @@ Section ModMarkers.
   Qed.
 
   (* per message, any outcome under the guard: no markers, or the modification is accepted and they are the static ones *)
-  Lemma mod_markers_guarded a c seid cpf cp cf cq up uf uq rp rf rq a' c' o :
-    mod_ok a c (MMod seid cpf cp cf cq up uf uq rp rf rq) = true ->
+  Lemma mod_markers_guarded w ci seid cpf cp cf cq up uf uq rp rf rq a' c' o :
+    let a := w_agent w in let c := get_conn ci (w_conns w) in
+    mod_ok burst w ci (MMod seid cpf cp cf cq up uf uq rp rf rq) = true ->
     handle_mod burst a c seid cpf cp cf cq up uf uq rp rf rq = Done (a', c', o) ->
     o_markers o = [] \/
     exists s0 fs ups,
@@ -122,11 +123,11 @@ Section ModMarkers.
       o_reply o = Some (RMod (new_rseid cpf s0) CAUSE_OK) /\
       o_markers o = if g_end_marker (a_cfg a) then static_markers ups (view (s_fars s0) ++ fs) else [].
   Proof.
-    intros Hok H. cbn [mod_ok] in Hok.
+    intros a c Hok H. unfold mod_ok in Hok. cbv zeta in Hok. fold a c in Hok.
     destruct (find_session seid (c_sessions c)) as [s0|] eqn:Hf.
     2:{ rewrite (mod_unknown burst _ _ _ cpf cp cf cq up uf uq rp rf rq Hf) in H. inversion H; subst. left. reflexivity. }
     destruct (mod_loops a c s0 seid cp cf cq up uf uq) as [wk k] eqn:HL. destruct k as [|k].
-    - right. destruct (mod_markers_static _ _ _ _ _ _ _ _ _ _ _ _ _ _ _ _ _ _ Hf HL Hok H) as (fs & ups & A & B & C & D).
+    - right. destruct (mod_markers_static _ _ _ _ _ _ _ _ _ _ _ _ _ _ _ _ _ _ _ Hf HL Hok H) as (fs & ups & A & B & C & D).
       exists s0, fs, ups. repeat split; assumption.
     - left. rewrite (handle_mod_early burst _ _ _ cpf _ _ _ _ _ _ rp rf rq _ _ _ Hf HL) in H. inversion H; subst. reflexivity.
   Qed.
@@ -137,7 +138,7 @@ Section ModMarkers.
   Theorem markers_to_installed_tunnel : forall es w w' ci cn seid cpf cp cq up uf uq rp rf rq draws w'' o,
     (forall x, In x (states burst w es) -> envelope burst x /\ alloc_backed x) ->
     guarded_hist burst w es = true -> image_ok burst w -> wrun burst w es = Done w' ->
-    mod_ok (w_agent w') (get_conn ci (w_conns w')) (MMod seid cpf cp [] cq up uf uq rp rf rq) = true ->
+    mod_ok burst w' ci (MMod seid cpf cp [] cq up uf uq rp rf rq) = true ->
     wstep burst w' (WMsg ci cn (MMod seid cpf cp [] cq up uf uq rp rf rq) draws) = Done (w'', o) ->
     forall m, In m (o_markers o) ->
       exists s0 f u ups,
@@ -194,10 +195,10 @@ Qed.
 Section ModTeids.
   Variable burst : N -> N -> N -> N.
 
-  Lemma mod_removes_free a c seid cpf cp cf cq up uf uq rp rf rq s0 w6 a' c' o :
+  Lemma mod_removes_free a c seid cpf cp cf cq up uf uq rp rf rq mid s0 w6 a' c' o :
     find_session seid (c_sessions c) = Some s0 ->
     mod_loops a c s0 seid cp cf cq up uf uq = (w6, 0%nat) ->
-    late_ok a c seid s0 w6 cp cf cq up uf uq rp rf rq = true ->
+    late_ok a c seid s0 w6 cp cf cq up uf uq rp rf rq mid = true ->
     handle_mod burst a c seid cpf cp cf cq up uf uq rp rf rq = Done (a', c', o) ->
     exists s' dp,
       find_session seid (c_sessions c') = Some s' /\
@@ -209,7 +210,7 @@ Section ModTeids.
       a_gauge a' = a_gauge a.
   Proof.
     intros Hf HL HG H.
-    destruct (mod_late_result burst _ _ _ cpf _ _ _ _ _ _ _ _ _ _ _ Hf HL HG) as (wp3 & g3 & dp & wf3 & df & wq3 & dq & R1 & _ & _ & Hr).
+    destruct (mod_late_result burst _ _ _ cpf _ _ _ _ _ _ _ _ _ _ _ _ Hf HL HG) as (wp3 & g3 & dp & wf3 & df & wq3 & dq & R1 & _ & _ & Hr).
     rewrite Hr in H. inversion H; subst a' c' o; clear H Hr. cbn [a_teids a_gauge c_sessions].
     exists (Sess (s_lseid s0) (new_rseid cpf s0) wp3 wf3 wq3), dp.
     pose proof (remove_p_perm _ _ _ _ _ _ _ R1) as PP. rewrite app_nil_r in PP.
